@@ -36,7 +36,7 @@ def verdictLine (line : String) : String :=
     match dispatch op args impl with
     | some o =>
       if o.agree then s!"{id} ok {op} {o.rel}"
-      else s!"{id} DIFF {op} rel={o.rel} decisive={o.decisive} model={o.model} impl={impl} note={o.note}"
+      else s!"{id} DIFF {op} rel={o.rel} decisive={o.decisive} class={o.klass} model={o.model} impl={impl} note={o.note}"
     | none => s!"{id} BAD {op} unknown-op-or-malformed-args"
   | _ => "0 BAD ? unparsable-line"
 
